@@ -1,0 +1,25 @@
+// Copyright 2022 The Go Authors. All rights reserved.
+// Use of this source code is governed by a BSD-style
+// license that can be found in the LICENSE file.
+
+//go:build verif
+
+// Machine-checked contracts for package benchfmt (storage) (//@ lines, read by
+// /verif/gocv).  Compiled only under the "verif" tag; comment-only.
+
+package benchfmt
+
+// Two label sets are equal exactly when they have the same keys with the same
+// values ("consecutive results with identical labels are stored as one record").
+// Stated as: the sets have the same size and every label of l is a label of b
+// with the same value — which for finite maps is the same thing (every key of b
+// is then a key of l; that counting step is mathematics, not checked here).
+//@ pure func labelsWithin(l Labels, b Labels) bool = forall k string :: has(l, k) ==> has(b, k) && l[k] == b[k]
+
+//@ func (l Labels) Equal(b Labels) (r bool)
+//@   props C19
+//@   ensures r ==> len(l) == len(b) && labelsWithin(l, b)
+//@   ensures len(l) == len(b) && labelsWithin(l, b) ==> r
+//@   loop 1:
+//@     invariant len(l) == len(b)
+//@     invariant forall k string :: visited(k) ==> has(l, k) && has(b, k) && l[k] == b[k]
